@@ -1,4 +1,5 @@
 """C15 - matching a binary equals matching its `objdump -d -M att` text."""
+import os
 import re
 
 from hypothesis import strategies as st
@@ -70,7 +71,15 @@ _OKNAME = re.compile(r"^[a-z][a-z0-9]*$")
 def evaluate(case):
     ev = Eval()
     sc = jasm_io.scratch()
-    path = sc.write("c15.o", build_object(case["obj"]))
+    # the object under an ordinary name or under one with a blank, quote, backslash or parenthesis in the file or directory name (the
+    # disassembler is a child process: the path travels through an argument list)
+    import zlib
+
+    blob = build_object(case["obj"])
+    oname = ["c15.o", "c15.o", "c15.o", "code (copy).o", "firmware dump 2024/c15.o", "it's.o", 'say "hi".o', "back\\slash.o", "tab\there.o"][zlib.crc32(blob) % 9]
+    if "/" in oname:
+        os.makedirs(os.path.join(sc.dir, os.path.dirname(oname)), exist_ok=True)
+    path = sc.write(oname, blob)
     path, ctag = _contain(sc, path, case)
     secs = case["sections"]
     rc, text, err = disassemble_object(path, secs)
